@@ -1016,7 +1016,7 @@ impl GlyphDataOffsetArray for CFFAndCharStrings<'_> {
     }
 
     fn all_offsets_are_ascending(&self) -> bool {
-        let it1 = (0..self.charstrings.count()).map(|index| self.offset_for(GlyphId::new(index)));
+        let it1 = (0..=self.charstrings.count()).map(|index| self.offset_for(GlyphId::new(index)));
         let it2 = it1.clone().skip(1);
 
         !it1.zip(it2).any(|(start, end)| {
